@@ -9,10 +9,13 @@ package par1
 //@ iface-pure DecoderDelegate VerifyDelegate RepairDelegate EncoderDelegate CreateDelegate
 
 // The filesystem behind fileIO does not touch gopar's memory.
+// gReads: number of ReadFile calls so far (C04: the search for parity volumes tries every name).
+//@ ghost gReads int = 0
 //@ func (fileIO).ReadFile
 //@   assume-contract environment: ioutil.ReadFile / memfs
 //@   modifies nothing
 //@   ghost-set gIOFailed = gIOFailed || (result1 != nil && !isNotExist(result1))
+//@   ghost-set gReads = gReads + 1
 //@ func (fileIO).WriteFile
 //@   assume-contract environment: ioutil.WriteFile / memfs
 //@   modifies nothing
@@ -131,17 +134,23 @@ package par1
 //@   modifies nothing
 //@   ensures implies(!result1 && result2 == nil, md5(bytes(result0)) == entry.header.Hash && md5(bytes(result0[:min(len(result0), 16384)])) == entry.header.SixteenKHash)
 
+// C04 (the search is complete): when LoadParityData succeeds it has tried, exactly once each,
+// every one of the maxParityVolumeCount candidate volume names .p01, .p02, ... -- no early exit.
 //@ func (*Decoder).LoadParityData
 //@   props C13 C19 C04 C18
 //@   ensures implies(gIOFailed && !old(gIOFailed), result != nil)
+//@   check-ensures @C04 implies(result == nil, mathint(gReads) - mathint(old(gReads)) == mathint(maxParityVolumeCount))
 //@   requires decoderOK(d)
 //@   loop 0
+//@     invariant @C04 mathint(gReads) - mathint(old(gReads)) == mathint(i) && i <= maxParityVolumeCount
 //@     invariant d == old(d) && decoderOK(d) && fresh(parityData) && mathint(len(parityData)) == mathint(maxParityVolumeCount) && maxI < maxParityVolumeCount || maxParityVolumeCount == 0 && maxI == 0 && d == old(d) && decoderOK(d) && len(parityData) == 0
 //@     invariant implies(gIOFailed, old(gIOFailed))
 
 //@ func (*Decoder).LoadParityData$1
 //@   props C13 C19 C04 C18
 //@   ensures implies(gIOFailed && !old(gIOFailed), result2 != nil && !isNotExist(result2))
+//@   ensures @C04 gReads == old(gReads) + 1
+//@   assert-call fileIO.ReadFile : arg0 == volumePath
 //@   nilable *
 //@   requires d != nil && decoderOK(d)
 //@   modifies *&shardByteCount
